@@ -1409,21 +1409,38 @@ func c15Run(cfg *config) error {
 		long := strings.Repeat("long word ", 60)
 		cases = append(cases, c15GenCase(r, id, "probe", &long, nil, nil))
 		id++
-		// (4) one very wide node: 520 children, each with points of its own (a listing of that many nodes in one answer)
-		wide := c15GenCase(r, id, "probe", nil, nil, nil)
-		wide.Kind = "tree-wide"
-		for k := 0; k < 520; k++ {
-			wide.Nodes = append(wide.Nodes, c15NodeSpec{ID: fmt.Sprintf("w%d-%d", id, k), Type: "variable", Parent: wide.Top,
-				Pts: []sPoint{{Type: "description", Text: fmt.Sprintf("child %d", k)}, {Type: "value", VBits: math.Float64bits(float64(k))}}, EPts: []sPoint{}})
-		}
-		// ... and some of the children, early and late ones in the listing, have children of their own
-		for _, k := range []int{0, 1, 2, 3, 5, 7, 8, 9, 100, 519} {
-			for j := 0; j < 2; j++ {
-				wide.Nodes = append(wide.Nodes, c15NodeSpec{ID: fmt.Sprintf("w%d-%d-%d", id, k, j), Type: "variable", Parent: fmt.Sprintf("w%d-%d", id, k),
-					Pts: []sPoint{{Type: "description", Text: fmt.Sprintf("grandchild %d.%d", k, j)}}, EPts: []sPoint{}})
+		// (4) one very wide node: 1000 children, each with points of its own (a listing of that many nodes in one answer;
+		// more ids than one SQL statement took host parameters in older SQLite builds)
+		// two of them: with exactly 1000 child edges below the top node, and with exactly 1000 living children
+		for variant := 0; variant < 2; variant++ {
+			wide := c15GenCase(r, id, "probe", nil, nil, nil)
+			wide.Kind = "tree-wide"
+			have := 0
+			for _, ns := range wide.Nodes {
+				if ns.Parent == wide.Top && (variant == 0 || ns.Tomb != 1) {
+					have++
+				}
 			}
+			for _, m := range wide.Mirrors {
+				if m.Parent == wide.Top {
+					have++
+				}
+			}
+			nw := 1000 - have
+			for k := 0; k < nw; k++ {
+				wide.Nodes = append(wide.Nodes, c15NodeSpec{ID: fmt.Sprintf("w%d-%d", id, k), Type: "variable", Parent: wide.Top,
+					Pts: []sPoint{{Type: "description", Text: fmt.Sprintf("child %d", k)}, {Type: "value", VBits: math.Float64bits(float64(k))}}, EPts: []sPoint{}})
+			}
+			// ... and some of the children, early and late ones in the listing, have children of their own
+			for _, k := range []int{0, 1, 2, 3, 5, 7, 8, 9, 100, nw - 1} {
+				for j := 0; j < 2; j++ {
+					wide.Nodes = append(wide.Nodes, c15NodeSpec{ID: fmt.Sprintf("w%d-%d-%d", id, k, j), Type: "variable", Parent: fmt.Sprintf("w%d-%d", id, k),
+						Pts: []sPoint{{Type: "description", Text: fmt.Sprintf("grandchild %d.%d", k, j)}}, EPts: []sPoint{}})
+				}
+			}
+			cases = append(cases, wide)
+			id++
 		}
-		cases = append(cases, wide)
 	}
 	results := c15RunAll(cases, 6)
 	for i, c := range results {
